@@ -24,6 +24,10 @@ func runC08(p *eng.Prog, r *eng.Report, tier string) {
 	c := &cx{p, r, tier}
 	c08Handle(c)
 	c08Reader(c)
+	// C08.10 a received stream error is returned as such: its decoder consumes
+	// the whole element (E-dec3/E-dec6), otherwise Serve ends with a decoding error
+	nDec := decoderLoopConsumes(c, "C08.10", func(f *eng.Fn) bool { return strings.HasPrefix(f.Short, "stream.") })
+	c.r.Floor("C08.10", "start-element arms in the token loops of the stream package", nDec, 1)
 	// the serve loop goes on delivering elements (and ends without an error at
 	// the closing tag) after the documented shutdown sequence replaced the
 	// input context
@@ -494,4 +498,34 @@ func c08ReaderAs(c *cx, id string) {
 		}
 		c.r.Check(id, rf, "Reader constructor", "K: the serve-time filter is not in negotiating mode and wraps the given reader", rf.Pos(), okc, "reader literal not as expected")
 	}
+}
+
+// fromBlankedOnlyForOwnBare (C07.9, the C08.4 guard under another property):
+// the sender that the automatic reply is addressed to is the request's from
+// attribute; it is blanked only when it equals the session's own BARE address
+// (a request from the session's own full address, i.e. from another resource
+// handling of the same account or from itself, keeps its sender and is
+// answered to it).
+func fromBlankedOnlyForOwnBare(c *cx, id string) {
+	f := c.fn(id, "", "handleInputStream")
+	if f == nil {
+		return
+	}
+	n := 0
+	for _, w := range f.Writes() {
+		sel, ok := ast.Unparen(w.LHS).(*ast.SelectorExpr)
+		if !ok || sel.Sel.Name != "Value" {
+			continue
+		}
+		if v := rootLocal(f, w.LHS); v == nil || eng.TypeStr(v.Type()) != "encoding/xml.StartElement" {
+			continue
+		}
+		n++
+		c.dom(id, f, w.Stmt, "from normalisation", []string{
+			"stanza.Is(*.Name,p0.in.XMLNS)",
+			"eq(rangeval(*.Attr).Name.Local,\"from\")",
+			"eq(jid.JID.String[jid.JID.Bare[xmpp.Session.LocalAddr[p0]()]()](),rangeval(*.Attr).Value)",
+		})
+	}
+	c.r.Floor(id, "from normalisation stores", n, 1)
 }
